@@ -366,6 +366,12 @@ def gen_op(rng, rows):
         stems = list(STEMS)
         for b in rows["blobs"]:
             stems.append(b["filename"].rsplit(".", 1)[0])
+        # media files whose blob file is not `<name>.<ext>` any more (edited): their NAME is still taken - in
+        # their own stream (replace) and in every other stream (refused)
+        bname = {b["pk"]: b["filename"] for b in rows["blobs"]}
+        edited = [f["name"] for f in files if bname.get(f["blob"], "").rsplit(".", 1)[0] != f["name"]]
+        if edited and rng.random() < .5:
+            return ("up", spk, rng.choice(edited), ".mp4", wchoice(rng, KIND_WEIGHTS))
         return ("up", spk, rng.choice(stems), rng.choice(SUFFIXES), wchoice(rng, KIND_WEIGHTS))
     if k == "ix":
         if unindexed and rng.random() < .75:
